@@ -234,6 +234,8 @@ def features(t) -> List[str]:
             nav = owner[1:-1] if owner[0] in bound else owner[:-1]
             if nav:
                 f.add("collection-via-to-one")
+                if bound:
+                    f.add("collection-via-to-one-inside-lambda")
                 if any(s in self_rels for s in nav):
                     f.add("self-path")
             if owner[-1] in self_rels:
@@ -247,7 +249,31 @@ def features(t) -> List[str]:
             walk(c, depth, bound)
 
     walk(t, 0, frozenset())
+    # two different top-level to-one paths into the same table (each needs its own aliased join)
+    from ..models.schema import REL
+    for root in ("vt_parent", "vt_child"):
+        targets: Dict[str, set] = {}
+        for x in _toplevel(t):
+            segs = x[1] if x[0] == "path" else x[2]
+            tb = root
+            for i, sname in enumerate(segs[:-1]):
+                rel = REL.get((tb, sname))
+                if rel is None or rel[0] != "one":
+                    break
+                targets.setdefault(rel[1], set()).add(tuple(segs[:i + 1]))
+                tb = rel[1]
+        if any(len(v) > 1 for v in targets.values()):
+            f.add("two-paths-same-table")
     return sorted(f)
+
+
+def _toplevel(t):
+    """paths and lambdas outside any lambda body"""
+    if t[0] in ("path", "lambda"):
+        yield t
+        return
+    for c in _children(t):
+        yield from _toplevel(c)
 
 
 def _children(x):
